@@ -141,7 +141,7 @@ func (s *ahSeq) abort(op string, err error) {
 }
 
 func ahtreeSequences(c *fw.Ctx) {
-	nSeq := c.N(64, 320)
+	nSeq := c.N(64, 160)
 	only := -1 // VERIF_C08_SEQ: development aid (re-run one sequence); registered commands never set it
 	if v := os.Getenv("VERIF_C08_SEQ"); v != "" {
 		fmt.Sscan(v, &only)
@@ -152,7 +152,7 @@ func ahtreeSequences(c *fw.Ctx) {
 			return
 		}
 		s := &ahSeq{c: c, g: guarded{c}, id: k, r: c.Rand(fmt.Sprintf("c08/ahtree/seq/%d", k)), dist: map[string]struct{}{}}
-		s.cap = c.N(64, 200)
+		s.cap = c.N(64, []int{64, 100, 150, 200}[k%4]) // the check after a step costs O(cap^2) proofs
 		s.full = s.cap
 		steps := c.N(40, 60)
 		if k%8 == 7 {
